@@ -285,6 +285,14 @@ int main(int argc, char **argv)
         outs.push_back(DoUri("[" + h + "]:" + p + "/" + path, true));
         outs.push_back(DoUri(scheme + "://[" + h + "]:" + p + "/" + path, true));
         outs.push_back(DoPair(h, p));
+        if(port == 0) {
+          // the spellings without any service: "host", "host/path" (the first colon of the string may then sit inside the path)
+          // (documented for plain hosts only: "[IPv6-host]" without a service is not among the documented formats)
+          if(!v6) {
+            outs.push_back(DoUri(h, true));
+            outs.push_back(DoUri(h + "/" + path, true));
+          }
+        }
         Group("lit", h, port, v6, outs);
       } else if(w[0] == "name" && w.size() == 6) {
         bool v6 = (w[1] == "1");
